@@ -417,6 +417,34 @@ def c10_cases(tier):
                     return "enum %s (declared after a valueless `enum Placeholder`) writes %s, its schema values are %s" % (en, ser, sorted(vals))
             return None
         yield case, oracle_ph
+    # two schemas that define an enum of the SAME name with different values, handled by one process (one consumer crate with two
+    # derives, one CLI run over two schemas): each module's enum has the values of its own schema
+    d = os.path.join(WORK, "replay-files")
+    os.makedirs(d, exist_ok=True)
+    same_name = []
+    for sub, vals in (("c10_tickets", ["OPEN", "CLOSED", "in_review"]), ("c10_billing", ["PAID", "UNPAID", "Overdue", "type"])):
+        os.makedirs(os.path.join(d, sub), exist_ok=True)
+        open(os.path.join(d, sub, "schema.graphql"), "w").write("enum Status { %s } input F { s: Status } type T { status: Status } type Query { t(s: Status, f: F): T }" % " ".join(vals))
+        open(os.path.join(d, sub, "query.graphql"), "w").write("query Q($s: Status, $f: F) { t(s: $s, f: $f) { status } }")
+        same_name.append(({"schema_path": os.path.join(d, sub, "schema.graphql"), "query_path": os.path.join(d, sub, "query.graphql"), "options": {"mode": "cli"}}, vals))
+    for order in ([0, 1], [1, 0], [0, 1, 0]):
+        hist = [same_name[k][0] for k in order]
+
+        def oracle_same_name(res, order=order):
+            if res["exit"] != 0 or not res["out"]:
+                return "process died: %s" % res["stderr"]
+            for k, r in zip(order, res["out"]["results"]):
+                vals = same_name[k][1]
+                if not r.get("ok"):
+                    return "generation failed for a schema with `enum Status { %s }`: %s" % (" ".join(vals), (r.get("error") or r.get("panic") or "")[:160])
+                t = norm(r["tokens"])
+                ser = sorted(w for (_, w) in re.findall(r'Status::([A-Za-z0-9_#]+)=>"([^"]*)"', t))
+                de = sorted(w for (w, _) in re.findall(r'"([^"]*)"=>Ok\(Status::([A-Za-z0-9_#]+)\)', t))
+                if ser != sorted(vals) or de != sorted(vals):
+                    return "a process that generates code for two schemas defining `enum Status` with different values: the enum generated for `Status { %s }` writes %s and recognises %s" % (
+                        " ".join(vals), ser, de)
+            return None
+        yield {"calls": hist}, oracle_same_name
     # the same through both schema front-ends, with deprecated values (servers still send them)
     import vxbounded
     dvals = ["ACTIVE", ("LEGACY", ""), "where", ("OLD", "gone")]
@@ -518,6 +546,14 @@ def c06_cases(tier):
         ("k6 two root fields of a subscription inside one fragment", C06_SUB_SCHEMA, "fragment F on Sub { a b } subscription S { ...F }"),
         ("k6 two root fields of a subscription inside one inline fragment", C06_SUB_SCHEMA, "subscription S { ... on Sub { a b } }"),
         ("k6 two root fields of a subscription through nested fragments", C06_SUB_SCHEMA, "fragment G on Sub { b } fragment F on Sub { a ...G } subscription S { ...F }"),
+        ("k6 the second of two subscriptions has two root fields, one through a fragment the first subscription spreads too", C06_SUB_SCHEMA,
+         "fragment G on Sub { b } fragment F on Sub { a ...G } subscription First { ...G } subscription S { ...F }"),
+        ("k6 the first of two subscriptions has two root fields through fragments the second one shares", C06_SUB_SCHEMA,
+         "fragment G on Sub { b } fragment F on Sub { a ...G } subscription S { ...F } subscription Second { ...G }"),
+        ("k6 a subscription with two root fields after a query that spreads the same fragments", "schema { query: Sub subscription: Sub } type Sub { a: Int b: Int }",
+         "fragment G on Sub { b } fragment F on Sub { a ...G } query Q { ...F } subscription S { ...F }"),
+        ("k6 the same fragment spread twice and a second root field", C06_SUB_SCHEMA, "fragment G on Sub { b } subscription S { ...G ...G a }"),
+        ("k6 two root fields, one of them `__typename`", C06_SUB_SCHEMA, "subscription S { a __typename }"),
         ("k7 anonymous selection set", C06_SCHEMA, "{ n }"),
         ("k7 anonymous query", C06_SCHEMA, "query { n }"),
         ("k8 mutation without a mutation root", C06_SCHEMA, "mutation M { n }"),
@@ -1381,6 +1417,32 @@ def c08_cases(tier):
                         return "the same call produced different token streams"
             return None
         yield case, oracle
+    # failing calls repeated: a call that fails (missing file, unparsable document) fails the same way every time, under any options,
+    # exactly as it does alone in a fresh process - a failure leaves nothing behind that a later call on the same path could pick up
+    unparsable = os.path.join(d, "c08_unparsable.graphql")
+    open(unparsable, "w").write("query Q { a { st ")
+    bad_parse = {"schema_path": good_s, "query_path": unparsable, "options": {"mode": "cli"}}
+    bad_derive = {"schema_path": good_s, "query_path": missing, "options": {"mode": "derive", "struct_name": "Q", "operation_name": "Q"}}
+    bad_parse_derive = {"schema_path": good_s, "query_path": unparsable, "options": {"mode": "derive", "struct_name": "Q", "operation_name": "Q"}}
+    bad_schema = {"schema_path": os.path.join(d, "c08_missing_schema.graphql"), "query_path": good_q, "options": {"mode": "cli"}}
+
+    def outcome(r):
+        return (bool(r.get("ok")), r.get("tokens"), r.get("error"), r.get("panic"))
+    for hist in ([bad, bad], [bad_parse, bad_parse, ok], [bad, ok, bad_derive], [bad_parse, bad_parse_derive, bad_parse], [bad_schema, bad_schema, ok], [bad_derive, bad]):
+        def oracle_rep(res, hist=hist):
+            if res["exit"] != 0 or not res["out"]:
+                return "process died: %s" % res["stderr"]
+            for k, (c, r) in enumerate(zip(hist, res["out"]["results"])):
+                alone = run_case({"calls": [c]})
+                if not alone["out"]:
+                    return "process died: %s" % alone["stderr"]
+                a = alone["out"]["results"][0]
+                if outcome(a) != outcome(r):
+                    return "call %d (%s, %s form) of a history with failing calls ends in %s; alone in a fresh process it ends in %s" % (
+                        k + 1, os.path.basename(c["query_path"]), c["options"]["mode"],
+                        ("code" if r.get("ok") else "the failure `%s`" % (r.get("error") or r.get("panic")))[:200], ("code" if a.get("ok") else "the failure `%s`" % (a.get("error") or a.get("panic")))[:200])
+            return None
+        yield {"calls": hist}, oracle_rep
 
 
 CLI_TARGET = os.path.join(WORK, "cli-target")
